@@ -94,7 +94,10 @@ pub fn run_call(
     let d = &mut b.d;
     let r = catch_unwind(AssertUnwindSafe(|| match entry {
         Entry::Dispatch => d.dispatch(world),
+        #[cfg(feature = "par")]
         Entry::Par => d.dispatch_par(world),
+        #[cfg(not(feature = "par"))]
+        Entry::Par => panic!("harness: dispatch_par does not exist without the parallel feature"),
         Entry::SeqTl => {
             d.dispatch_seq(world);
             d.dispatch_thread_local(world);
